@@ -6,8 +6,17 @@ package main
 // not loaded; syncing from a truncated peer.
 
 import (
-	"strings"
+	"context"
 	"fmt"
+	"strings"
+	"time"
+
+	"github.com/bartossh/Computantis/src/cache"
+	"github.com/bartossh/Computantis/src/gossip"
+	"github.com/bartossh/Computantis/src/pipe"
+	pb "github.com/bartossh/Computantis/src/protobufcompiled"
+	"google.golang.org/grpc"
+	"google.golang.org/protobuf/types/known/emptypb"
 
 	"github.com/bartossh/Computantis/src/accountant"
 	"github.com/bartossh/Computantis/src/spice"
@@ -269,6 +278,52 @@ func init() {
 			info := map[string]interface{}{"section": "sync", "shape": "truncated-peer"}
 			c.Mark(info)
 			w.Seed(src)
+			// the same ledger served by the real gossip handler to a peer that takes longer than the node's gossip
+			// call timeout for the whole stream: a handler that reports success has sent every live vertex once,
+			// and the peer loads the same ledger from what it received through the wire mapping
+			{
+				hc, _ := cache.New(100, 16)
+				fl, _ := cache.NewFlash()
+				g := gossip.VerifNewGossiper(nopLog{}, 300*time.Millisecond, src.w, w.ver, src.ab, hc, fl, pipe.New(10, 10), "serving")
+				st := &slowStream{delay: 600 * time.Microsecond}
+				herr := g.Server().LoadDag(&emptypb.Empty{}, st)
+				sinfo := map[string]interface{}{"section": "sync", "shape": "served-to-slow-peer"}
+				live := src.ab.VerifSnapshot().Vertices
+				seen := map[[32]byte]int{}
+				wellFormed := true
+				for _, pv := range st.got {
+					if pv == nil || len(pv.Hash) != 32 {
+						wellFormed = false
+						continue
+					}
+					seen[[32]byte(pv.Hash)]++
+				}
+				missing := 0
+				for _, v := range live {
+					if seen[v.Hash] != 1 {
+						missing++
+					}
+				}
+				c.Rep.Evals++
+				c.Distinct("served-to-slow-peer")
+				if herr == nil && (missing > 0 || !wellFormed) {
+					c.Violate("C14", "slow-peer-gets-partial-stream-reported-complete", fmt.Sprintf("the LoadDag handler returned nil to a peer taking 0.6 ms per vertex after %d of %d live vertices (%d missing or repeated): the joining node sees a clean end of stream", len(st.got), len(live), missing), sinfo)
+				}
+				if herr == nil && missing == 0 && wellFormed {
+					var vs []*accountant.Vertex
+					for _, pv := range st.got {
+						v := gossip.VerifMapProtoToVertex(pv)
+						vs = append(vs, &v)
+					}
+					dst := w.NewNode()
+					lerr := w.Load(dst, vs)
+					if lerr != nil || !dst.ab.DagLoaded() {
+						c.Violate("C14", "valid-stream-not-loaded:served", fmt.Sprintf("the ledger served by the gossip handler was not loaded by the joining node: %v", errTag(lerr)), sinfo)
+					} else {
+						w.compareLedgers(src, dst, sinfo, "served-to-slow-peer")
+					}
+				}
+			}
 			if err := w.Truncate(src); err == nil {
 				vs := w.Stream(src)
 				dst := w.NewNode()
@@ -286,6 +341,20 @@ func init() {
 		return nil
 	}
 }
+
+// slowStream is the server side of a LoadDag call whose peer (or link) takes `delay` per vertex.
+type slowStream struct {
+	grpc.ServerStream
+	delay time.Duration
+	got   []*pb.Vertex
+}
+
+func (s *slowStream) Send(v *pb.Vertex) error {
+	time.Sleep(s.delay)
+	s.got = append(s.got, v)
+	return nil
+}
+func (s *slowStream) Context() context.Context { return context.Background() }
 
 func buildChainQuiet(c *Ctx, depth int) (*World, *Node) {
 	w := NewWorld(c)
